@@ -136,6 +136,15 @@ def frame(draw, R=3):
     p0 = tuple(F(draw(st.integers(-R, R))) for _ in range(3))
     u = draw(direction(2))
     v = draw(direction(2))
+    if draw(st.integers(0, 5)) == 0:
+        # a plane parallel to one coordinate axis but to no coordinate plane: normal (0, b, c) with b, c != 0
+        i = draw(st.integers(0, 2))
+        u = tuple(F(1) if j == i else F(0) for j in range(3))
+        w = [F(draw(st.sampled_from((1, -1, 2, -2, 3)))), F(draw(st.sampled_from((1, -1, 2, 3, -3))))]
+        w.insert(i, F(0))
+        v = tuple(w)
+        if draw(st.booleans()):
+            u, v = v, u
     assume(not X.is_zero(X.cross(u, v)))
     return p0, u, v
 
@@ -657,6 +666,29 @@ def polyhedron_vs_polyhedron(draw, K, recipe):
         else:
             base = [f[0], X.mul(F(1, 2), X.add(f[0], f[1])), c]
         K2 = X.make_K(base + [apex])
+        assume(_ok_K(K2))
+        return K2
+    if recipe == "glue-face-overlap":
+        # a second body sitting on the outside of one face plane of K whose base polygon only partly overlaps that
+        # face (another shape, shifted within the plane): the intersection is the 2-D overlap of the two coplanar
+        # polygons, found from both bodies' faces, with crossing points that are not lattice points
+        # prefer a face plane parallel to exactly one coordinate axis (normal with exactly one zero component), where
+        # a mathematically zero normal component of a computed polygon carries float noise of either sign
+        one_zero = [fc for fc in K[2] if sum(1 for c in fc[0] if c == 0) == 1]
+        if one_zero and draw(st.integers(0, 2)) > 0:
+            n, b, idx = draw(st.sampled_from(one_zero))
+        else:
+            n, b, idx = draw(st.sampled_from(K[2]))
+        f = [pts[i] for i in idx]
+        g2 = draw(polygon_in_plane_of(("G", f), draw(st.sampled_from(("overlap", "overlap", "translated")))))
+        assume(g2 is not None and len(g2[1]) >= 3)
+        nv = moderate(n)
+        c = X.mul(F(1, 4), X.add(X.mul(2, g2[1][0]), X.add(g2[1][1], g2[1][2])))
+        apex = X.add(c, X.mul(draw(st.sampled_from((F(1), F(1, 2), F(2)))), nv))
+        if draw(st.booleans()):
+            K2 = X.make_K(list(g2[1]) + [apex])
+        else:
+            K2 = X.make_K(list(g2[1]) + [X.add(q_, X.mul(F(1), nv)) for q_ in g2[1]])
         assume(_ok_K(K2))
         return K2
     if recipe == "share-edge":
